@@ -35,17 +35,43 @@ def _mask(cells):
     return m
 
 
+def requery_history(rng, kchoices):
+    """solve; change the query; clear; solve again; switch definition; clear; solve: the clauses about
+    forgetting the old query (freshForgetsOldQueries, plannerDataForgetsOldQueries) get their antecedent."""
+    k = lambda: rng.choice(kchoices)
+    return [{"a": "SetPdef", "p": "A"}, {"a": "Solve", "k": k()}, {"a": "NewQuery", "p": "A"},
+            {"a": rng.choice(["Clear", "ClearQuery"])}, {"a": "Solve", "k": k()}, {"a": "GetPlannerData"},
+            {"a": "SetPdef", "p": "B"}, {"a": "Clear"}, {"a": "Solve", "k": k()}, {"a": "GetPlannerData"},
+            {"a": "Solve", "k": k()}, {"a": "Destroy"}]
+
+
+def _is_walk(out, ops):
+    """True iff the history is a walk through the exported state graph of PlannerLifecycle.tla."""
+    s = 0
+    for op in ops:
+        nxt = [e for e in out.get(s, []) if e["a"] == op["a"] and (op["a"] not in ("SetPdef", "NewQuery") or e["args"]["p"] == op["p"])]
+        if not nxt:
+            return False
+        s = nxt[0]["d"]
+    return True
+
+
 def _jobs(tier, out):
     rng = random.Random(vlib.seed() * 104729 + 31)
     if tier == "quick":
-        n_hist, maxlen, sweep_ks, sweep_k2 = 8, 8, list(range(0, 22)), ["k60"]
+        n_hist, maxlen, sweep_ks, sweep_k2, n_requery = 8, 8, list(range(0, 22)), ["k60"], 3
     else:
-        n_hist, maxlen, sweep_ks, sweep_k2 = 60, 10, list(range(0, 90)) + [100, 150, 250, 400], ["k3", "k150", "inf"]
+        n_hist, maxlen, sweep_ks, sweep_k2, n_requery = 60, 10, list(range(0, 90)) + [100, 150, 250, 400], ["k3", "k150", "inf"], 20
     jobs, jid = [], 0
     for planner in PLANNERS:
         hs = [c03.random_history(out, rng, maxlen, c03.KNAMES) for _ in range(n_hist)]
         for k in sweep_ks:
             hs.append(c03.sweep_history(k, rng.choice(sweep_k2)))
+        for _ in range(n_requery):
+            hs.append(requery_history(rng, ["k8", "k34", "k150", "k400", "inf"]))
+        for h in hs:
+            if not _is_walk(out, h):
+                raise FrameworkError("history is not a walk of the life-cycle model: %s" % h)
         for h in hs:
             system = rng.choice(list(SYSTEMS))
             mn, mx = rng.choice(DURATIONS)
